@@ -337,6 +337,13 @@ fn host_conn(name: String, mut s: TcpStream) {
                 if res.is_err() {
                     break;
                 }
+                if plan.framing == "cl-close" {
+                    // a complete keep-alive style answer, then the host silently closes its side
+                    let _ = s.shutdown(std::net::Shutdown::Both);
+                    verif::trace::emit(json!({"e": "HostClose", "host": name, "hconn": hconn,
+                        "bytesTotal": total_bytes + buf.len(), "bytesParsed": parsed_bytes, "fault": "closed-after-answer"}));
+                    return;
+                }
             }
             Ok(None) => break,
             Err(_) => break,
